@@ -15,6 +15,8 @@ func main() {
 	commands["race"] = cmdRace
 	commands["ctxio"] = cmdCtxio
 	commands["client"] = cmdClient
+	commands["e2e"] = cmdE2E
+	commands["relay"] = cmdRelay
 	if len(os.Args) < 2 {
 		fmt.Fprintln(os.Stderr, "usage: vdriver <command> [flags]")
 		os.Exit(2)
